@@ -337,6 +337,10 @@ func checkResourceDelete(r *Run, p *Prog) {
 		dp, _ := c.Locate(cs.Call)
 		for _, helper := range []*FuncNode{delIn, delOut} {
 			calls := CallsIn(fn, calleeIs(helper))
+			if len(calls) == 0 {
+				// the step extracted into a package-local wrapper that succeeds only after it
+				calls = wrapperCallsOf(p, fn, helper, 1)
+			}
 			if len(calls) != 1 {
 				r.Ob("C16.R2.edges", fmt.Sprintf("%s runs before the resource delete in %s", helper.Name, fn.Top().Name), p.Position(cs.Call.Pos()), false, fmt.Sprintf("%d call(s) to %s", len(calls), helper.Name))
 				continue
@@ -532,29 +536,43 @@ func checkRelationshipCreate(r *Run, p *Prog) {
 				}
 				return true
 			})
-			// "if err != nil || exists { return err }"
-			inspectNoLit(def.Body, func(y ast.Node) bool {
-				ifs, isIf := y.(*ast.IfStmt)
-				if !isIf {
-					return true
-				}
-				ds := disjuncts(ifs.Cond)
-				hasE, hasX := false, false
-				for _, d := range ds {
-					if o, trueMeansNil, isCmp := nilCompare(def, d); isCmp && o == er && !trueMeansNil {
-						hasE = true
+			// the create is reached only across an edge establishing "does not exist yet", and
+			// every return between the lookup and that edge hands out the lookup error (nil
+			// when the edge exists) or nil
+			c := p.CFG(def)
+			gate := c.EdgesEstablishing(func(atom ast.Expr, val bool) bool { return ex != nil && objOf(def, atom) == ex && !val })
+			creates := c.NodesWhere(func(n ast.Node) bool {
+				return nodeHasCall(def, n, func(o types.Object, call *ast.CallExpr) bool {
+					f, isF := o.(*types.Func)
+					if !isF || f.Name() != "NewCreate" {
+						return false
 					}
-					if objOf(def, d) == ex && ex != nil {
-						hasX = true
+					sel, isSel := ast.Unparen(call.Fun).(*ast.SelectorExpr)
+					if !isSel {
+						return false
 					}
-				}
-				if hasE && hasX && len(ifs.Body.List) == 1 {
-					if ret, isRet := ifs.Body.List[0].(*ast.ReturnStmt); isRet && len(ret.Results) == 1 && objOf(def, ret.Results[0]) == er {
-						ok = true
-					}
-				}
-				return true
+					inner, isSel := ast.Unparen(sel.X).(*ast.SelectorExpr)
+					return isSel && fieldVar(def, inner) == relTable
+				})
 			})
+			if cp, found := c.Locate(ecalls[0]); found && len(gate) > 0 && len(creates) > 0 {
+				_, vis := c.ReachAvoiding([]Point{cp}, gate, nil)
+				ok = true
+				for _, cr := range creates {
+					if vis[cr] {
+						ok = false
+					}
+				}
+				for _, e := range c.Exits() {
+					if !vis[e.P] || e.Return == nil || len(e.Return.Results) != 1 {
+						continue
+					}
+					res := e.Return.Results[0]
+					if !(isNilIdent(def, res) || (er != nil && objOf(def, res) == er)) {
+						ok = false
+					}
+				}
+			}
 		}
 		r.Ob("C16.R3.create", "defining an existing relationship is a no-op", p.Position(def.Pos()), ok, "the early exit on an existing edge must return the (nil) lookup error")
 	}
